@@ -516,7 +516,7 @@ def shrink_case(mod, scratch, case, obs, want="holds", rounds=14, width=160):
         if not items:
             break
         ab, hb, errs = evaluate(mod, scratch, items, tag="shr%d" % r)
-        bad = hb if want == "holds" else ab
+        bad = hb if want == "holds" else ab if want == "agree" else sorted(set(hb) & set(ab))
         if not bad:
             break
         i = min(bad)
@@ -675,21 +675,40 @@ def check(prop_id, tier, seed):
         # --- property failures on the implementation's behaviour
         reported = set()
         # failing cases of different classes first, so that distinct causes are shrunk
+        # Cases on which the model ALSO disagrees come first: a listed known finding is part of the model (agree
+        # holds on it), so a failing case that the model does not predict is something else.  Cases that match a
+        # known finding as they are get skipped without shrinking, and do not use up the examination budget — a
+        # known finding must never mask a different violation of the same property.
+        agree_set = set(agree_bad)
         order, seen_cls = [], set()
-        for i in holds_bad:
-            k = mod.classify(*items[i]) if hasattr(mod, "classify") else ""
+        for i in sorted(holds_bad, key=lambda j: (j not in agree_set, j)):
+            k = (i in agree_set, mod.classify(*items[i]) if hasattr(mod, "classify") else "")
             if k not in seen_cls:
                 seen_cls.add(k)
                 order.append(i)
-        order += [i for i in holds_bad if i not in set(order)]
-        for i in order[:8]:
+        in_order = set(order)
+        order += [i for i in sorted(holds_bad, key=lambda j: (j not in agree_set, j)) if i not in in_order]
+        examined = 0
+        for i in order:
             c, o = items[i]
-            sc, so = shrink_case(mod, scratch, c, o, "holds")
+            kf0 = match_known(mod, c, o, findings)
+            if kf0 and i not in agree_set:
+                line = "KNOWN-FINDING: property=%s %s" % (mod.ID, kf0["what"])
+                if line not in known_lines:
+                    known_lines.append(line)
+                continue
+            examined += 1
+            if examined > 12:
+                break
+            both = i in agree_set
+            # a case that shows a known finding AND disagrees with the model (which contains the known finding)
+            # is shrunk so that both failures are kept, and is never written off as the known finding
+            sc, so = shrink_case(mod, scratch, c, o, "both" if both else "holds")
             key = case_key(jsonable(sc))
             if key in reported:
                 continue
             reported.add(key)
-            kf = match_known(mod, sc, so, findings) or match_known(mod, c, o, findings)
+            kf = None if both else (match_known(mod, sc, so, findings) or match_known(mod, c, o, findings))
             if kf:
                 line = "KNOWN-FINDING: property=%s %s" % (mod.ID, kf["what"])
                 if line not in known_lines:
@@ -742,11 +761,18 @@ def check(prop_id, tier, seed):
 
         for c, o in driver_errors[:3]:
             notes.append("driver error: %s" % o["driver_error"])
-        if driver_errors and len(driver_errors) > len(cases) // 2 and not violations:
+        if driver_errors and not violations:
+            # The driver only performs calls that cannot fail on a tree where the property holds (it catches and
+            # records every exception the property allows).  An exception that escapes it means the implementation
+            # could not even be observed on this input: the correspondence is broken there.  The input is kept in
+            # the replay file; holds could not be evaluated on it.
             os.makedirs(os.path.join(VERIF, "replays"), exist_ok=True)
-            path = os.path.join(VERIF, "replays", "%s-driver-broken.json" % mod.ID)
-            json.dump({"property": mod.ID, "broken": "implementation driver fails: %s" % driver_errors[0][1]},
-                      open(path, "w"), indent=1, default=repr)
+            c0, o0 = driver_errors[0]
+            path = os.path.join(VERIF, "replays", "%s-driver-%s.json" % (mod.ID, case_key(jsonable(c0))))
+            json.dump({"property": mod.ID, "kind": "driver",
+                       "broken": "correspondence: an observation call of the driver raised on this input (%s); "
+                                 "%d of %d cases affected" % (o0["driver_error"], len(driver_errors), len(cases)),
+                       "case": jsonable(c0), "repo": REPO}, open(path, "w"), indent=1, default=repr)
             violations.append((path, " no-failing-input-found"))
 
         # --- evidence
@@ -838,7 +864,13 @@ def replay(prop_id, path):
     case = mod.from_json(rec["case"])
     log = {}
     build(log)
-    obs = mod.run_impl(case)
+    try:
+        obs = mod.run_impl(case)
+    except Exception as e:
+        print("case:", json.dumps(jsonable(case), default=repr)[:2000])
+        print("the driver's observation calls raise on this input: %s: %s" % (type(e).__name__, e))
+        print("VIOLATION property=%s replay=%s no-failing-input-found" % (mod.ID, path))
+        return 1
     with Scratch() as scratch:
         ab, hb, errs = evaluate(mod, scratch, [(case, obs)], tag="replay")
     print("case:", json.dumps(jsonable(case), default=repr)[:2000])
